@@ -46,8 +46,10 @@ package cache
 //@   ensures[earliest-first] forall a int, b int :: 0 <= a && a < b && b < len(result) ==> !result[b].SendBy.Before(result[a].SendBy)
 //@   ensures[others-stay] forall k string :: in(d.cache, k) ==> in(old(d.cache), k) && d.cache[k] == old(d.cache)[k]
 //@   ensures[nothing-expired-is-left-behind-below-max] (max <= 0 || len(result) < max) ==> (forall k string :: in(d.cache, k) ==> now.Before(d.cache[k].SendBy))
+//@   ensures[only-returned-traces-leave-the-buffer] forall k string :: in(old(d.cache), k) && !in(d.cache, k) ==> (exists j int :: 0 <= j && j < len(result) && result[j].TraceID == k)
 //@   ensures[still-synced] synced(d)
 //@   loop 1 invariant[synced] d != nil && d.pq != nil && synced(d) && len(skipped) == 0
+//@   loop 1 invariant[only-taken-traces-have-left] forall k string :: in(old(d.cache), k) && !in(d.cache, k) ==> (exists j int :: 0 <= j && j < len(expired) && expired[j].TraceID == k)
 //@   loop 1 invariant[bounded] max > 0 ==> len(expired) <= max
 //@   loop 1 invariant[taken] forall j int :: 0 <= j && j < len(expired) ==> expired[j] != nil && in(old(d.cache), expired[j].TraceID) && old(d.cache)[expired[j].TraceID] == expired[j] && !in(d.cache, expired[j].TraceID) && !now.Before(expired[j].SendBy)
 //@   loop 1 invariant[sorted] forall a int, b int :: 0 <= a && a < b && b < len(expired) ==> !expired[b].SendBy.Before(expired[a].SendBy)
@@ -211,3 +213,44 @@ package cache
 // ---- C35: the reason table is shared by all users of one decision cache
 //@ guarded_by collect/cache.KeptReasonsCache.mu: data, keys
 //@ lockdiscipline collect/cache.KeptReasonsCache mu props C35
+
+// ---- C31 (dropped-trace filter): the two-generation cuckoo filter. filterHas(f, id): id was inserted into filter f.
+// drain moves IDs from the add queue into the current filter and, once it exists, into the future filter as well;
+// Maintain starts the future filter when the current one is half full and, when the current one is full, promotes
+// the future filter (which holds everything recorded since it was started) and starts a new empty one - it never
+// replaces the current filter by nothing.
+//@ ghost filterHas(ref, string) bool
+//@ package github.com/panmari/cuckoofilter
+//@ assume github.com/panmari/cuckoofilter.(*Filter).Insert
+//@   ghostupdate filterHas(cf) :: forall k string :: filterHas(cf, k) == (old(filterHas(cf, k)) || k == string(data))
+//@ assume github.com/panmari/cuckoofilter.(*Filter).LoadFactor getter
+//@ assume github.com/panmari/cuckoofilter.NewFilter
+//@   ensures result != nil && isFresh(result) && (forall k string :: !filterHas(result, k))
+//@ package collect/cache
+//@ assume time.NewTimer
+//@ assume time.(*Timer).Stop
+//@ assume time.Duration.Microseconds getter
+//@ final collect/cache.CuckooTraceChecker.met
+//@ fragment collect/cache.(*CuckooTraceChecker).drain loop 1 body props C31 noinv
+//@   assert only none
+//@   requires c != nil && c.current != nil
+//@   let cur = c.current
+//@   let fut = c.future
+//@   ensures[the-filters-themselves-stay] toInt(c.current) == toInt(cur) && toInt(c.future) == toInt(fut)
+//@   ensures[nothing-recorded-is-forgotten] (forall k string :: old(filterHas(cur, k)) ==> filterHas(cur, k)) && (fut != nil ==> (forall k string :: old(filterHas(fut, k)) ==> filterHas(fut, k)))
+//@   ensures[what-enters-the-current-filter-enters-the-future-one-too] fut != nil ==> (forall k string :: filterHas(cur, k) && !old(filterHas(cur, k)) ==> filterHas(fut, k))
+//@   modifies all(filterHas)
+//@ contract collect/cache.(*CuckooTraceChecker).drain props C31 noinv
+//@   assert only none
+//@   requires c != nil && c.current != nil
+//@   ensures[the-filters-themselves-stay] toInt(c.current) == toInt(old(c.current)) && toInt(c.future) == toInt(old(c.future))
+//@   ensures[nothing-recorded-is-forgotten] forall f *cuckoo.Filter, k string :: old(filterHas(f, k)) ==> filterHas(f, k)
+//@   loop 1 invariant[the-filters-themselves-stay] toInt(c.current) == toInt(old(c.current)) && toInt(c.future) == toInt(old(c.future)) && (forall f *cuckoo.Filter, k string :: old(filterHas(f, k)) ==> filterHas(f, k))
+//@   modifies all(filterHas)
+//@ contract collect/cache.(*CuckooTraceChecker).Maintain props C31 havocheap noinv
+//@   arith math
+//@   assert only none
+//@   requires c != nil && c.current != nil
+//@   ensures[there-is-always-a-current-filter] c.current != nil
+//@   ensures[a-promoted-filter-is-the-future-one-and-the-new-future-is-empty] toInt(c.current) != toInt(old(c.current)) ==> c.future != nil && (forall k string :: !filterHas(c.future, k))
+//@   modifies c.current, c.future, all(filterHas)
